@@ -28,6 +28,8 @@ def run_one(name):
             out = p.stdout + p.stderr
             viol = [l for l in out.splitlines() if l.startswith("VIOLATION")]
             detail = [l.strip() for l in out.splitlines() if l.startswith("  harness=")]
+            if p.returncode == 1 and not viol:
+                p.returncode = 3   # the check crashed (exit 1 without a VIOLATION line): not a detection
             res["checks"][chk] = {"exit": p.returncode, "violations": len(viol), "first": (detail[0][:260] if detail else None),
                                   "inconclusive": [l[:200] for l in out.splitlines() if l.startswith("INCONCLUSIVE")][:3], "wall_s": round(time.time() - t0)}
             if p.returncode == 1:
